@@ -97,6 +97,11 @@ def enumerate_cases(quick, seed=0):
                         cases.append(_hist(name, variant, order, [link, ["reopen", "blind"], e]))
                     if not quick:
                         cases.append(_hist(name, variant, order, [link, ["reopen", "observe"], e]))
+                # A': cold edits - nothing is read between the link and the edit, so the edited entity has
+                # never resolved its partner unless the link itself went through it
+                for e in all_edits:
+                    if not quick or e[0] == "special" or e[4] == 0:
+                        cases.append(_hist(name, variant, order, [link + ["cold"], e]))
                 # B: copies, copies of copies, copies after a re-open
                 for c in copies:
                     cases.append(_hist(name, variant, order, [link, c]))
@@ -108,6 +113,22 @@ def enumerate_cases(quick, seed=0):
                         if c[3] in ("masked", "masked2", "cross_masked") and c2[3] in ("masked", "masked2", "cross_masked"):
                             continue
                         cases.append(_hist(name, variant, order, [link, c, c2]))
+            # A": link made inside the constructor (partner handed to create()), both sides; no copies here
+            # (no loop / dipole identifiers are assigned: that would be an edit through the new side)
+            if info["paired"]:
+                k0 = [["edit", 0, s, a, 0] for a, _ in info["attrs"] for s in sides] + [["special", 0, s, w] for w in info["specials"] for s in sides]
+                for d in ("rx_create", "tx_create"):
+                    link = ["link", d]
+                    for order in orders:
+                        cases.append(_hist(name, variant, order, [link]))
+                        cases.append(_hist(name, variant, order, [link, ["reopen", "observe"]]))
+                    for e in k0:
+                        if quick and e[0] == "edit" and e[3] not in REP:
+                            continue
+                        cases.append(_hist(name, variant, "asc", [link + ["cold"], e]))
+                        cases.append(_hist(name, variant, "asc", [link, ["reopen", "blind"], e]))
+                        if not quick:
+                            cases.append(_hist(name, variant, "asc", [link, e]))
             # C: edit x copy interplay (first value of every parameter), components x re-open x edit
             order = "asc"
             for d in dirs:
@@ -236,7 +257,7 @@ def run(ctx):
         pairs_discovered={k: v["tx"] for k, v in specs.items()},
         n_linkable_pairs=sum(1 for v in specs.values() if v["tx"] is not None),
         alphabet={
-            "link": ["rx", "tx"],
+            "link": ["rx", "tx", "rx_create", "tx_create", "+cold (nothing read before the next op)"],
             "edit": {f"{k[0]}/{k[1]}": v["attrs"] for k, v in cat.items()},
             "special": {f"{k[0]}/{k[1]}": v["specials"] for k, v in cat.items()},
             "copy": list(COPY_Q if ctx.quick else COPY_T),
@@ -244,8 +265,8 @@ def run(ctx):
             "plan": plan,
         },
         bound=(
-            "per pair class x linking side: every single edit (every value of every shared parameter, both sides; fresh / after a blind "
-            "re-open" + ("" if ctx.quick else " / after an observed re-open; both uid orders") + "), every copy kind from both sides, every copy of a copy, "
+            "per pair class x linking side (setter after creation / constructor keyword): every single edit (every value of every shared parameter, both sides; fresh / after a blind "
+            "re-open / cold right after the link" + ("" if ctx.quick else " / after an observed re-open; both uid orders") + "), every copy kind from both sides, every copy of a copy, "
             "edit->copy, copy->edit-the-copy, copy->edit-the-source (first value of each parameter), components->[re-open]->edit"
             + ("" if ctx.quick else "; every ordered pair of edits, and edit->blind re-open->edit")
             + "; each history ends with close + re-open + raw read"
